@@ -1493,6 +1493,67 @@ theorem letContent_ne (p : Nat) (name : Bytes) (body : Block) (ih : ∀ buf', Bl
   simp only [refCmd]
   exact out_bind_not_val (ih (sc.genname name).1 fuel _ rbv env _ [] hrb hs' hg' hrel1 (find_setLocal_eq _ _ _) hx)
 
+/-! ### msg (no bundle) -/
+
+def PartsNe (ps : MsgParts) : Prop :=
+  ∀ (fuel : Nat) (sc : Scope) (r : JsStmts × Scope) (env : SEnv) (jenv : JEnv) (out : Bytes),
+    toParts ae buf ps sc = some r → ScOk sc → GoodBuf sc buf → EnvRel R.entry sc env jenv → BufIs buf jenv out →
+    execStmts F G fuel r.1 jenv = .error → ∀ x, refParts F R ae ps env ≠ .val x
+
+def PhNe (b : MsgPhBody) : Prop :=
+  ∀ (fuel : Nat) (sc : Scope) (r : JsStmts × Scope) (env : SEnv) (jenv : JEnv) (out : Bytes),
+    toPh ae buf b sc = some r → ScOk sc → GoodBuf sc buf → EnvRel R.entry sc env jenv → BufIs buf jenv out →
+    execStmts F G fuel r.1 jenv = .error → ∀ x, refPh F R ae b env ≠ .val x
+
+theorem ph_tag_ne (p : Nat) (t : Bytes) : PhNe F G R ae buf (.htmlTag p t) := by
+  intro fuel sc r env jenv out h hs hg hrel hb hx
+  have := rawText_ne F G R ae buf p t fuel sc r env jenv out (by simpa [toPh, toCmd] using h) hs hg hrel hb hx
+  simpa [refPh, refCmd] using this
+
+theorem ph_cmd_ne (c : Cmd) (ih : CmdNe F G R ae buf c) : PhNe F G R ae buf (.cmd c) := by
+  intro fuel sc r env jenv out h hs hg hrel hb hx
+  unfold toPh at h
+  simpa [refPh] using ih fuel sc r env jenv out h hs hg hrel hb hx
+
+theorem parts_nil_ne : PartsNe F G R ae buf .nil := by
+  intro fuel sc r env jenv out h hs hg hrel hb hx
+  simp only [toParts, Option.some.injEq] at h; subst h
+  simp [execStmts] at hx
+
+theorem parts_ph_ne (p : Nat) (name : Bytes) (body : MsgPhBody) (rest : MsgParts) (ihok : PhOk F G R ae buf body)
+    (ih1 : PhNe F G R ae buf body) (ih2 : PartsNe F G R ae buf rest) : PartsNe F G R ae buf (.ph p name body rest) := by
+  intro fuel sc r env jenv out h hs hg hrel hb hx
+  unfold toParts at h
+  obtain ⟨a, b, ha, hb2, rfl⟩ := phJoin_some h
+  rw [execStmts_append] at hx
+  simp only [refParts]
+  rcases sres_bind_error hx with hx | ⟨e1, hx1, hx2⟩
+  · exact out_bind_not_val (ih1 fuel sc a env jenv out ha hs hg hrel hb hx)
+  · obtain ⟨t1, env1, ht1, hrel1, hb1, _⟩ := ihok fuel sc a env jenv e1 out ha hs hg hrel hb hx1
+    obtain ⟨a1, _, _⟩ := toPh_scope ae body buf sc a ha hs
+    rw [ht1]
+    simp only [Spec.Eval.Out.bind]
+    exact out_bind_not_val (ih2 fuel a.2 b env1 e1 (out ++ t1) hb2 a1 (toPh_good ae body buf sc a ha hs buf hg) hrel1 hb1 hx2)
+
+theorem parts_text_ne (p : Nat) (t : Bytes) (rest : MsgParts) (ih2 : PartsNe F G R ae buf rest) :
+    PartsNe F G R ae buf (.text p t rest) := by
+  intro fuel sc r env jenv out h hs hg hrel hb hx x
+  have h' : toParts ae buf (.ph p [] (.htmlTag p t) rest) sc = some r := by
+    unfold toParts at h ⊢
+    simpa [toPh] using h
+  have := parts_ph_ne F G R ae buf p [] (.htmlTag p t) rest (ph_tag_ok F G R ae buf p t) (ph_tag_ne F G R ae buf p t) ih2
+    fuel sc r env jenv out h' hs hg hrel hb hx x
+  simp only [refParts, refPh, Spec.Eval.Out.bind] at this ⊢
+  exact this
+
+theorem msg_ne (p id : Nat) (m d : Bytes) (bp : Nat) (body : MsgParts) (ih : PartsNe F G R ae buf body) :
+    CmdNe F G R ae buf (.msg p id m d bp body) := by
+  intro fuel sc r env jenv out h hs hg hrel hb hx
+  unfold toCmd at h
+  obtain ⟨rb, hrb, rfl⟩ := msgJoin_some h
+  simp only [refCmd]
+  exact out_bind_not_val (ih fuel sc.push rb env jenv out hrb (scOk_push hs.2) (goodBuf_push hg) (envRel_push hrel) hb hx)
+
 /-! ### call -/
 
 /-- the callee oracle throws only where the reference's `call` does not render -/
@@ -1668,7 +1729,7 @@ mutual
     | .forc p v list body (some ie), buf =>
       forc_some_ne F G R ae buf p v list body ie (body_ok' F G R ae hG body buf) (body_ne' body buf) (block_ne' ie buf)
     | .letContent p name body, buf => letContent_ne F G R ae buf p name body (fun b' => block_ne' body b')
-    | .msg .., _ => fun _ _ _ _ _ _ h => by simp [toCmd] at h
+    | .msg p id m d bp body, buf => msg_ne F G R ae buf p id m d bp body (parts_ne body buf)
     | .css .., _ => fun _ _ _ _ _ _ h => by simp [toCmd] at h
     | .debugger .., _ => fun _ _ _ _ _ _ h => by simp [toCmd] at h
     | .log .., _ => fun _ _ _ _ _ _ h => by simp [toCmd] at h
@@ -1678,6 +1739,15 @@ mutual
     | .namespace .., _ => fun _ _ _ _ _ _ h => by simp [toCmd] at h
     | .template .., _ => fun _ _ _ _ _ _ h => by simp [toCmd] at h
     | .soyDoc .., _ => fun _ _ _ _ _ _ h => by simp [toCmd] at h
+  theorem parts_ne : ∀ (ps : MsgParts) (buf : Bytes), PartsNe F G R ae buf ps
+    | .nil, buf => parts_nil_ne F G R ae buf
+    | .text p t rest, buf => parts_text_ne F G R ae buf p t rest (parts_ne rest buf)
+    | .ph p name body rest, buf =>
+      parts_ph_ne F G R ae buf p name body rest (ph_ok F G R ae hG body buf) (ph_ne body buf) (parts_ne rest buf)
+    | .plural .., _ => fun _ _ _ _ _ _ h => by simp [toParts] at h
+  theorem ph_ne : ∀ (b : MsgPhBody) (buf : Bytes), PhNe F G R ae buf b
+    | .htmlTag p t, buf => ph_tag_ne F G R ae buf p t
+    | .cmd c, buf => ph_cmd_ne F G R ae buf c (cmd_ne c buf)
   theorem params_ne : ∀ (ps : ParamList), ParamsNe F G R ae ps
     | .nil => params_nil_ne F G R ae
     | .value p key e rest => params_value_ne F G R ae p key e rest (params_ok F G R ae hG rest) (params_ne rest)
